@@ -21,7 +21,8 @@ REQUIRED = ["Sqfs.C07.resolve_links_terminates", "Sqfs.C07.resolve_ok_targets", 
             "Sqfs.C07.read_number_in_bounds", "Sqfs.C07.read_octal_no_wrap", "Sqfs.C07.parse_uint_in_bounds_len",
             "Sqfs.C07.parse_uint_in_bounds_nul", "Sqfs.C07.parse_int_in_bounds", "Sqfs.C07.hex_decode_bounds",
             "Sqfs.C07.base64_decode_bounds", "Sqfs.C07.split_line_total", "Sqfs.C07.read_pax_header_total",
-            "Sqfs.C07.sparse_map_new_bounds", "Sqfs.C07.sparse_map_old_bounds"]
+            "Sqfs.C07.sparse_map_new_bounds", "Sqfs.C07.sparse_map_old_bounds", "Sqfs.C07.decode_filename_bounds",
+            "Sqfs.C07.xattr_decode_bounds"]
 WITNESS_MODULE = "Sqfs.Witness.C07"
 
 KEY_D12 = "D12:resolve_link:cycle-not-through-start"
@@ -221,6 +222,7 @@ def check_hardlinks(ctx, stats):
         rnd = hl_random(ctx.rng, 20000, 40) + hl_random(ctx.rng, 400, 400)
     nexh = len(lines)
     lines = corpus + lines + rnd
+    ctx.log("hard links: %d graphs (%d exhaustive)" % (len(lines), nexh))
     impl, model, crashes = run_chunks(ctx, exe, ["c07"], lines, jobs(ctx))
     for bad, rc, err in crashes[:5]:
         ctx.violation("hl-crash:" + vlib.sha(bad)[:12], "fstree_add_generic/fstree_resolve_hard_links aborted (rc=%s): %s" % (rc, err[-600:]),
@@ -452,6 +454,7 @@ def check_parsers(ctx, stats):
             lines += [l for l in p.read_text().splitlines() if l.strip() and not l.startswith("#")]
     ncorpus = len(lines)
     lines += gen_parser_lines(ctx, numfx, paxfx)
+    ctx.log("parser units: %d lines (read_binary variant %d, pax variant %d)" % (len(lines), numfx, paxfx))
     model = ctx.driver(["c07"], "\n".join(lines) + "\n", timeout=3600)
     skipped = 0
     if not paxfx:
@@ -595,8 +598,7 @@ def check_tools(ctx, stats):
     for n, d in seeds:
         tjobs.append(("seed:" + n, d, None))
     # hard-link graphs as archives (D12 at tool level)
-    tjobs.append(("hl:d12", TL.tar_hardlinks([(b"b", b"c"), (b"c", b"b"), (b"a", b"b")]), None))
-    for _ in range(10 if q else 150):
+    for _ in range(10 if q else 60):
         k = rng.randint(1, 5)
         names = [b"h%d" % i for i in range(k)]
         pairs = [(nm, rng.choice(names + [b"f0", b"f0", b"missing", b"f0/x", b"."])) for nm in names]
@@ -608,15 +610,15 @@ def check_tools(ctx, stats):
         data, markers = TL.tar_sparse_inconsistent(rng)
         tjobs.append(("sparse:inconsistent", data, markers))
     # structure-aware mutations of every dialect
-    for _ in range(900 if q else 16000):
+    for _ in range(900 if q else 8000):
         n, d = rng.choice(seeds)
         m = TL.mutate_tar(rng, d)
         for _ in range(rng.choice([0, 0, 0, 1, 2])):
             m = TL.mutate_tar(rng, m)
         tjobs.append(("mut:" + n, m, None))
     # truncation of small archives
-    for n, d in (small[:3] if q else small):
-        step = 37 if q else 1
+    for idx, (n, d) in enumerate(small[:3] if q else small):
+        step = 37 if q else (1 if idx < 4 else 16)      # thorough: every offset of four archives (pax, xattr, gnu long path, …)
         for cut in sorted(set(list(range(0, len(d), step)) + [511, 512, 513, 1023, 1024, 1025, len(d) - 1])):
             if cut < len(d):
                 tjobs.append(("trunc:%s@%d" % (n, cut), d[:cut], None))
@@ -624,7 +626,7 @@ def check_tools(ctx, stats):
     base = dict(seeds)["bin/tar2sqfs/test/simple.tar"]
     for codec, cd in TL.compress_variants(base).items():
         tjobs.append(("z:%s:intact" % codec, cd, None))
-        ncor = (3 if codec == "gz" else 25) if q else (60 if codec == "gz" else 400)
+        ncor = (1 if codec == "gz" else 25) if q else (24 if codec == "gz" else 400)
         for _ in range(ncor):
             tjobs.append(("z:%s:corrupt" % codec, TL.corrupt_stream(rng, cd), None))
 
@@ -638,16 +640,17 @@ def check_tools(ctx, stats):
             gjobs.append(("corpus/" + p.name, TL.PACK_SEED, None, txt))
         elif p.name.endswith("_sort.txt"):
             gjobs.append(("corpus/" + p.name, TL.PACK_SEED, txt, None))
-    for _ in range(350 if q else 6000):
+    for _ in range(350 if q else 3000):
         gjobs.append(("mut:pack", TL.mutate_text(rng, TL.PACK_SEED), None, None))
-    for _ in range(200 if q else 3000):
+    for _ in range(200 if q else 1500):
         gjobs.append(("mut:sort", TL.PACK_SEED, TL.mutate_text(rng, TL.SORT_SEED), None))
-    for _ in range(200 if q else 3000):
+    for _ in range(200 if q else 1500):
         gjobs.append(("mut:xattr", TL.PACK_SEED, None, TL.mutate_text(rng, TL.XATTR_SEED)))
-    for _ in range(60 if q else 1500):
+    for _ in range(60 if q else 600):
         gjobs.append(("hl:pack", TL.pack_hardlink_graph(rng), None, None))
 
     t0 = time.time()
+    ctx.log("tool level: %d tar jobs, %d gensquashfs jobs, %d workers" % (len(tjobs), len(gjobs), jobs(ctx)))
     with ThreadPoolExecutor(max_workers=jobs(ctx)) as ex:
         tres = list(ex.map(lambda j: T.run_tar(j[1], j[2]), tjobs))
         gres = list(ex.map(lambda j: T.run_gen(j[1], j[2], j[3]), gjobs))
